@@ -395,8 +395,9 @@ impl<'a> Lexer<'a> {
         if let Some((pos, ch)) = result {
             // Add base offset for absolute position (needed when chars is reset from middle of source)
             self.current_pos = self.chars_base_offset + pos + ch.len_utf8();
-            // ECMAScript line terminators: LF, LS (U+2028), PS (U+2029)
-            if ch == '\n' || ch == '\u{2028}' || ch == '\u{2029}' {
+            // ECMAScript line terminators: LF, CR (CRLF counts once), LS (U+2028), PS (U+2029)
+            let lone_cr = ch == '\r' && self.chars.peek().map(|(_, next)| *next) != Some('\n');
+            if ch == '\n' || lone_cr || ch == '\u{2028}' || ch == '\u{2029}' {
                 self.line += 1;
                 self.column = 1;
             } else {
@@ -447,15 +448,15 @@ impl<'a> Lexer<'a> {
                 // - \u0020 (space)
                 // - \u00A0 (no-break space)
                 // - \uFEFF (BOM / zero-width no-break space)
-                Some(' ' | '\t' | '\r' | '\u{000B}' | '\u{000C}' | '\u{00A0}' | '\u{FEFF}') => {
+                Some(' ' | '\t' | '\u{000B}' | '\u{000C}' | '\u{00A0}' | '\u{FEFF}') => {
                     self.advance();
                 }
                 // ECMAScript line terminators:
                 // - \u000A (LF - line feed)
+                // - \u000D (CR - carriage return)
                 // - \u2028 (LS - line separator)
                 // - \u2029 (PS - paragraph separator)
-                // Note: \r (CR) is handled above as whitespace since it doesn't trigger ASI on its own
-                Some('\n' | '\u{2028}' | '\u{2029}') => {
+                Some('\n' | '\r' | '\u{2028}' | '\u{2029}') => {
                     self.saw_newline = true;
                     self.advance();
                 }
@@ -467,7 +468,7 @@ impl<'a> Lexer<'a> {
                         self.advance(); // /
                         while let Some(ch) = self.peek() {
                             // ECMAScript line terminators end single-line comments
-                            if ch == '\n' || ch == '\u{2028}' || ch == '\u{2029}' {
+                            if ch == '\n' || ch == '\r' || ch == '\u{2028}' || ch == '\u{2029}' {
                                 break;
                             }
                             self.advance();
@@ -487,8 +488,8 @@ impl<'a> Lexer<'a> {
                                     self.advance();
                                     depth += 1;
                                 }
-                                // ECMAScript line terminators: LF, LS (U+2028), PS (U+2029)
-                                Some((_, '\n' | '\u{2028}' | '\u{2029}')) => {
+                                // ECMAScript line terminators: LF, CR, LS (U+2028), PS (U+2029)
+                                Some((_, '\n' | '\r' | '\u{2028}' | '\u{2029}')) => {
                                     self.saw_newline = true;
                                 }
                                 Some(_) => {}
